@@ -10,6 +10,10 @@ GAMMA_NAMES = ["default", "default", "default", "one", "inv_k", "three", "dep", 
 
 def gen_cfg(rng, scale=None, gammas=GAMMA_NAMES, kappas=(1e-6, 1e-4, 1e-4, 1e-4, 1e-3, 1e-2), tm_safe=False):
     """A model configuration; (mu, sigma, beta, tau) are rescaled together."""
+    if scale is None and gammas is GAMMA_NAMES and rng.random() < 0.06:
+        # the documented default configuration, NOT passed to the constructor (util.build leaves the parameters out)
+        return dict(mu=25.0, sigma=25.0 / 3.0, beta=25.0 / 6.0, kappa=0.0001, tau=25.0 / 300.0, limit_sigma=False,
+                    gamma=rng.choice(["default", "default", "dep"]), _defaults=True)
     if scale is None:
         r = rng.random()
         if r < 0.45:
